@@ -27,7 +27,8 @@ std::vector<std::pair<int, int>> weights(const std::string &id) {
   auto add = [&](int wt, int code) { w.emplace_back(wt, code); };
   auto setw = [&](int code, int wt) { for (auto &x : w) if (x.second == code) x.first = wt; };
   if (id == "C09") { setw(O_ADD_RING, 10); setw(O_SET_EDGE, 0); setw(O_SET_FACE, 0); setw(O_SET_CELL, 0); setw(O_CLEAR, 0); setw(O_ADD_FACE_V, 3); setw(O_ADD_FACE_HE, 2); }
-  if (id == "C10") { setw(O_SET_EDGE, 0); setw(O_SET_FACE, 0); setw(O_SET_CELL, 0); setw(O_QUERY, 3); }
+  if (id == "C08") { add(8, O_TRY_FACE); setw(O_SET_EDGE, 0); setw(O_SET_FACE, 0); setw(O_SET_CELL, 0); }
+  if (id == "C10") { setw(O_EN_VBU, 3); setw(O_EN_EBU, 2); setw(O_EN_FBU, 2); setw(O_SET_EDGE, 0); setw(O_SET_FACE, 0); setw(O_SET_CELL, 0); setw(O_QUERY, 3); }
   if (id == "C11") { add(14, O_TRY_FACE); add(14, O_TRY_CELL); setw(O_QUERY, 0); setw(O_ADD_EDGE, 10); setw(O_EN_VBU, 3); add(4, O_PROP_CREATE); add(4, O_PROP_WRITE); }
   return w;
 }
@@ -49,7 +50,7 @@ vf::CaseResult run_case(const std::string &id, const Program &prog, Stats &st) {
     S.deferred = (m & 1) != 0;
     S.fast = (m & 2) != 0;
   }
-  if (id == "C09" || id == "C10") I.allow_set = false;
+  if (id == "C08" || id == "C09" || id == "C10") I.allow_set = false;
   if (id == "C10") I.allow_selfloop = false;
   PropBank bank(I);
   C05Ctx c05;
@@ -59,13 +60,15 @@ vf::CaseResult run_case(const std::string &id, const Program &prog, Stats &st) {
   uint64_t sweeps = 0, sweeps_discarded = 0, rejects_checked = 0, accepts_checked = 0;
   RawSnap before;
   bool have_before = false;
+  bool model_left = false;
 
   auto sweep = [&](const Op *q) -> bool {
     ++sweeps;
     if (id == "C05" || id == "C09" || id == "C10") {
+      // the brute-force oracles of these properties are independent of the incidence caches; a state in which the C01
+      // oracle fails is still judged (a stale cache usually breaks these properties as well), it is only counted
       C01Counters tmp;
-      std::string g = c01_check(S.mesh, tmp);
-      if (!g.empty()) { I.set_fail("C01", "prerequisite: " + g); ++sweeps_discarded; return false; }
+      if (!c01_check(S.mesh, tmp).empty()) ++sweeps_discarded;
     }
     std::string m;
     if (id == "C05") {
@@ -82,10 +85,20 @@ vf::CaseResult run_case(const std::string &id, const Program &prog, Stats &st) {
         int u = S.lay.uid_at[KF][f];
         checked[f] = I.L.alive(KF, u) && (size_t)u < I.checked_face.size() && I.checked_face[(size_t)u];
       }
+      // set_* is disabled in this target and every generated loop is closed, so after the reference model was left
+      // (layout unknown) every live face still counts as "built from a vertex list or accepted with topology check"
+      if (model_left || S.lay.uid_at[KF].size() != S.mesh.n_faces()) checked.assign(S.mesh.n_faces(), 1);
       m = c08_sweep(S.mesh, checked, c08);
     } else if (id == "C09") {
       m = c09_sweep(S.mesh, c09);
     } else if (id == "C10") {
+      // lookups need all bottom-up incidences: re-enable whatever the history switched off (itself a history step)
+      if (!model_left) {
+        if (!S.vbu) I.prim_simple(P_EN_VBU, true, "enable_vertex_bottom_up_incidences");
+        if (!S.ebu) I.prim_simple(P_EN_EBU, true, "enable_edge_bottom_up_incidences");
+        if (!S.fbu) I.prim_simple(P_EN_FBU, true, "enable_face_bottom_up_incidences");
+        if (!I.fail.empty()) return false;
+      }
       c10.salt = q ? q->a[0] % 16 : 0;
       m = c10_sweep(S.mesh, c10);
     }
@@ -150,9 +163,19 @@ vf::CaseResult run_case(const std::string &id, const Program &prog, Stats &st) {
     if (!cont || !I.fail.empty()) break;
   }
   if (I.fail.empty() && id != "C11") sweep(nullptr);
+  else if (!I.fail.empty() && I.fail_owner != id && id != "C11") {
+    // the history left the reference model (another property's business). The sweeps are model-free, so the
+    // reached mesh state is still judged by this property's own oracle.
+    std::string keep_fail = I.fail, keep_owner = I.fail_owner;
+    I.fail.clear(); I.fail_owner.clear();
+    st.count("sweeps_after_model_mismatch");
+    model_left = true;
+    sweep(nullptr);
+    if (I.fail.empty() || I.fail_owner != id) { I.fail = keep_fail; I.fail_owner = keep_owner; }
+  }
 
   st.count("sweeps", sweeps);
-  st.count("sweeps_discarded_prereq_C01", sweeps_discarded);
+  st.count("sweeps_on_states_failing_the_C01_oracle", sweeps_discarded);
   if (id == "C05") {
     st.count("circulators_checked", c05.circulators); st.count("circulators_nonempty", c05.nonempty); st.count("circulators_empty_centre", c05.empty_centres);
     st.count("circulators_nontrivial", c05.nontrivial); st.count("entity_iterator_checks", c05.iter_checks);
